@@ -410,28 +410,32 @@ func (r *relay) header(
 	streamEnded bool,
 	priority http2.PriorityParam,
 ) error {
-	encoded, err := r.encodeFull(headers)
-	if err != nil {
-		return fmt.Errorf("encoding headers %v: %w", headers, err)
-	}
-
-	maxPayloadLength := atomic.LoadUint32(&r.maxFrameSize)
-	// Padding is not implemented because the extra security is not needed for a development proxy.
-	// If it were used, a single padding length octet should be deducted from the max header fragment
-	// length.
-	maxHeaderFragmentLength := maxPayloadLength
-	if !priority.IsZero() {
-		maxHeaderFragmentLength -= headersPriorityMetadataLength
-	}
-	chunks := splitIntoChunks(int(maxHeaderFragmentLength), int(maxPayloadLength), encoded)
-
+	// The header block is HPACK-encoded when the frame is written, not here: the frame may wait in
+	// its stream's queue behind flow-controlled DATA while blocks of other streams are sent, and the
+	// peer can only decode blocks in the order in which they were encoded.
 	r.enqueueFrame(&queuedHeaderFrame{
+		relay:     r,
 		streamID:  id,
 		endStream: streamEnded,
 		priority:  priority,
-		chunks:    chunks,
+		headers:   headers,
 	})
 	return nil
+}
+
+// headerChunks encodes headers and splits the block into chunks that respect the frame size limit.
+// metadataLength is the length of the non-header payload of the first frame. This must only be
+// called when the frame is being written to the destination.
+func (r *relay) headerChunks(headers []hpack.HeaderField, metadataLength uint32) ([][]byte, error) {
+	encoded, err := r.encodeFull(headers)
+	if err != nil {
+		return nil, fmt.Errorf("encoding headers %v: %w", headers, err)
+	}
+	// Padding is not implemented because the extra security is not needed for a development proxy.
+	// If it were used, a single padding length octet should be deducted from the max header fragment
+	// length.
+	maxPayloadLength := atomic.LoadUint32(&r.maxFrameSize)
+	return splitIntoChunks(int(maxPayloadLength-metadataLength), int(maxPayloadLength), encoded), nil
 }
 
 func (r *relay) priority(id uint32, priority http2.PriorityParam) {
@@ -449,19 +453,11 @@ func (r *relay) rstStream(id uint32, errCode http2.ErrCode) {
 }
 
 func (r *relay) pushPromise(id, promiseID uint32, headers []hpack.HeaderField) error {
-	encoded, err := r.encodeFull(headers)
-	if err != nil {
-		return fmt.Errorf("encoding push promise headers %v: %w", headers, err)
-	}
-
-	maxPayloadLength := atomic.LoadUint32(&r.maxFrameSize)
-	maxHeaderFragmentLength := maxPayloadLength - pushPromiseMetadataLength
-	chunks := splitIntoChunks(int(maxHeaderFragmentLength), int(maxPayloadLength), encoded)
-
 	r.enqueueFrame(&queuedPushPromiseFrame{
+		relay:     r,
 		streamID:  id,
 		promiseID: promiseID,
-		chunks:    chunks,
+		headers:   headers,
 	})
 	return nil
 }
